@@ -93,7 +93,7 @@ def seam_vector(rng, canonical=False):
     """One vector of ambient values.  Canonical = zero random bytes, epoch 0, empty environment, no heap pad."""
     if canonical:
         return {"rand": 0, "time": 0, "timestep": 1, "pid": 4242, "host": "canonical", "heappad": 0, "heapfrag": 0, "stack_kb": 8192, "env": {},
-                "paths": "plain", "argv0": "", "tty": "", "umask": 0o22, "cpus": 0}
+                "paths": "plain", "argv0": "", "tty": "", "umask": 0o22, "cpus": 0, "predest": "none"}
     env = {}
     for _ in range(rng.range(0, 12)):
         name = rng.choice(ENV_NAMES)
@@ -116,6 +116,8 @@ def seam_vector(rng, canonical=False):
         "tty": rng.choice(["", "", "2", "12", "012"]),
         "umask": rng.choice([0o22, 0o22, 0o77, 0o0, 0o27]),
         "cpus": rng.choice([0, 0, 1, 2, 5]),
+        # what the destination paths held BEFORE the run is not part of (grammar, shell) either
+        "predest": rng.choice(["none", "none", "none", "short", "long", "long"]),
     }
 
 
@@ -145,6 +147,11 @@ def case_for(text, shell, vec, outputs=("script", "dfa", "regex")):
             "mkdirs": ["o"] if style == "subdir" else []}
     if style == "absolute":
         case["absolute"] = True
+    pre = vec.get("predest", "none")
+    if pre != "none":
+        stale = "# stale line left over from a previous, longer output\n" * (3 if pre == "short" else 90000)
+        for name in (out, dfa, regex):
+            case["files"][name.lstrip("./") if name.startswith("./") else name] = stale
     return case
 
 
@@ -344,7 +351,7 @@ def minimise(v):
     if v["mode"] == "directed":
         canonical = seam_vector(None, canonical=True)
         # seam values back to canonical, one at a time
-        for k in ("env", "heappad", "heapfrag", "stack_kb", "rand", "time", "timestep", "pid", "host", "paths", "argv0", "tty", "umask", "cpus"):
+        for k in ("env", "heappad", "heapfrag", "stack_kb", "rand", "time", "timestep", "pid", "host", "paths", "argv0", "tty", "umask", "cpus", "predest"):
             cand = json.loads(json.dumps(cur))
             cand["vector"][k] = canonical[k]
             if "ref_vector" in cand:
